@@ -130,7 +130,10 @@ def model(draw, flavour=None, max_blocks=10):
     rnames = draw(st.lists(_memo('rockname', lambda: st.one_of(
         st.text(alphabet='abcdRKX12', min_size=5, max_size=5), st.text(alphabet='abcdRKX12', min_size=5, max_size=5),
         st.text(alphabet='abcdRKX12', min_size=2, max_size=4).map(lambda t: t.ljust(5)),
-        st.text(alphabet='abcdRKX12', min_size=3, max_size=4).map(lambda t: t.rjust(5)))), min_size=nr, max_size=nr, unique=True))
+        st.text(alphabet='abcdRKX12', min_size=3, max_size=4).map(lambda t: t.rjust(5)),
+        # legal names that read like something else: a rock type index (TOUGH2 allows 'MA1 blank, MA2 a number'), a number, a keyword
+        st.sampled_from(['    1', '    2', '    3', '   12', '    0', '00002', '2    ', '1e  2', 'ROCKS', 'ELEME', 'SEED ']))),
+        min_size=nr, max_size=nr, unique=True))
     for nm in rnames:
         nad = draw(SF([None, 0, 0, 1, 2, 2]))
         r = {'name': nm, 'nad': nad, 'density': draw(pos(1, 1e4)), 'porosity': draw(pos(1e-4, 1.0)),
